@@ -1,6 +1,6 @@
 SPECIFICATION Spec
 CONSTANTS
-  Versions <- VersionsQuick
+  Versions <- VersionsPairQuick
   Family = "pair"
 INVARIANTS RefusedWhenOver PersistableOnlyBytes OkWithin HashIndependent ShapesWellFormed Emit
 CHECK_DEADLOCK FALSE
